@@ -17,7 +17,7 @@ RULE = ('programs = product of return kinds (str, bytes, empty, None, list/gener
         'all-empty iterable, file-like with/without close and with/without wsgi.file_wrapper, HTTPResponse/HTTPError returned / raised / yielded '
         'first / nested three deep / carrying a generator body, exception in the handler / at the first next(), unsupported types, abort()) x method {GET,HEAD,POST} x '
         'status {200,201,204,304,100,102,404,500} x hooks {none, 2 before + 2 after, failing before-hook, before-hook raising a response} x '
-        'error handlers {default, custom returning str, custom raising} x routing outcome {found, 404, 405}. '
+        'error handlers {default, custom returning str, custom raising; thorough adds bytes, None, generator, response object, same error again} x routing outcome {found, 404, 405}. '
         'Non-trivial = anything but a plain str/bytes return with default configuration; distinct = distinct program.')
 REQUIRED = ['programs', 'sr_once', 'validator_agreed', 'content_length_checked', 'no_body_statuses', 'head_requests', 'closed_once_checked',
             'hook_traces_checked', 'failing_before_hook', 'handler_exceptions_to_500', 'last_resort_pages', 'outcome_404', 'outcome_405',
@@ -37,6 +37,7 @@ METHODS = ['GET', 'HEAD', 'POST']
 STATUSES = [200, 201, 204, 304, 100, 102, 404, 500]
 HOOKS = ['none', 'two_two', 'before_fails', 'before_raises_resp']
 ERRH = ['default', 'custom_str', 'custom_raises']
+ERRH_MORE = ['custom_bytes', 'custom_none', 'custom_gen', 'custom_resp', 'custom_loop']     # thorough tier
 ROUTES = ['found', '404', '405']
 
 
@@ -227,6 +228,25 @@ def make_world(hooks, errh):
             raise RuntimeError('error handler failed')
         for code in (404, 405, 500):
             app.error(code)(bad)
+    elif errh == 'custom_bytes':
+        for code in (404, 405, 500):
+            app.error(code)(lambda err, code=code: b'custom-%d' % code)
+    elif errh == 'custom_none':
+        for code in (404, 405, 500):
+            app.error(code)(lambda err: None)
+    elif errh == 'custom_gen':
+        def eg(err):
+            yield ''
+            yield 'gen-'
+            yield str(err.status_code)
+        for code in (404, 405, 500):
+            app.error(code)(eg)
+    elif errh == 'custom_resp':
+        for code in (404, 405, 500):
+            app.error(code)(lambda err: HTTPResponse('replaced', 299, {'X-Replaced': str(err.status_code)}))
+    elif errh == 'custom_loop':
+        for code in (404, 405):
+            app.error(code)(lambda err, code=code: HTTPError(code, 'again'))
     W['validated'] = validator(app)
     return W
 
@@ -295,6 +315,17 @@ def reference(p):
             last_resort = True
             status = 500
             body = None
+        elif errh == 'custom_bytes' and err in (404, 405, 500):
+            body = b'custom-%d' % err
+        elif errh == 'custom_none' and err in (404, 405, 500):
+            body = b''
+        elif errh == 'custom_gen' and err in (404, 405, 500):
+            body = b'gen-%d' % err
+        elif errh == 'custom_resp' and err in (404, 405, 500):
+            status, body = 299, b'replaced'
+        elif errh == 'custom_loop' and err in (404, 405):
+            # an error handler that answers with the same error again: the cast loop gives up with a 500 page
+            status, body = 500, None
         else:
             body = None     # default error page: HTML (or JSON), content judged by C20
     return dict(status=status, trace=trace, body=body, err=err, last_resort=last_resort, handler_ran=handler_ran)
@@ -353,7 +384,7 @@ def run_program(ctx, W, p):
             ctx.count('outcome_404')
         if p['route'] == '405' and ref['err'] == 405:
             ctx.count('outcome_405')
-            if not ref['last_resort'] and r.header('Allow') != 'PUT':
+            if r.code == 405 and r.header('Allow') != 'PUT':
                 ctx.violation('405-without-allow', f'{where}: {r.headers}', wit)
         # body / framing
         no_body = p['method'] == 'HEAD' or r.code in (204, 304) or 100 <= r.code < 200
@@ -416,7 +447,7 @@ def run_program(ctx, W, p):
 
 
 def programs(tier):
-    for hooks, errh in itertools.product(HOOKS, ERRH):
+    for hooks, errh in itertools.product(HOOKS, ERRH + (ERRH_MORE if tier == 'thorough' else [])):
         for route in ROUTES:
             kinds = KINDS if route == 'found' else ['str']
             for kind in kinds:
@@ -437,7 +468,7 @@ def programs(tier):
 
 
 def plan(tier, seed):
-    combos = list(itertools.product(HOOKS, ERRH))
+    combos = list(itertools.product(HOOKS, ERRH + (ERRH_MORE if tier == 'thorough' else [])))
     return [{'kind': 'product', 'hooks': h, 'errh': e, 'tier': tier} for h, e in combos]
 
 
